@@ -1,5 +1,6 @@
 #!/bin/sh
-# tools/regress.sh — every claimed check on the current tree, then every must-fail corpus.
+# tools/regress.sh — every claimed check on the current tree, every must-fail corpus, the no-alarm corpus of
+# behaviour-preserving edits, and all kept seeded changes.
 cd "$(dirname "$0")/.."
 IDS=$(python3 -c "import json;print(' '.join(c['property_id'] for c in json.load(open('MANIFEST.json'))['checks']))")
 rc=0
@@ -11,4 +12,6 @@ for id in $IDS; do
   [ -d selftest/$id ] || continue
   tools/selftest.sh $id | tail -n 1 | grep -q "all caught" && echo "selftest $id ok" || { echo "selftest $id FAILED"; tools/selftest.sh $id | grep -v caught; rc=1; }
 done
+tools/harmless_all.sh | tail -n 1 | grep -q "all quiet" && echo "harmless corpus quiet" || { echo "harmless corpus ALARMS"; tools/harmless_all.sh | grep -v "^quiet"; rc=1; }
+tools/reseed.sh | tail -n 1
 exit $rc
